@@ -130,7 +130,12 @@ def smoothed_projection(
     # need smoothings doesn't actually matter, since all our computations our
     # purely element-wise (no spatial locality) and those pixels will instead
     # rely on the standard projection. So just use 1, since it's well behaved.
-    nonzero_norm = jnp.abs(rho_filtered_grad_helper) > 0
+    # A squared norm within a few orders of magnitude of the smallest normal number of the dtype is treated like
+    # zero as well: the backward pass forms intermediates of size 1/helper (e.g. d(output)/d(helper)), which
+    # overflow to inf and give inf/NaN gradients (float32 designs varying by ~1e-21 around eta=0, beta=inf). Such
+    # a field is uniform for every practical purpose, so those pixels fall back to the standard projection.
+    norm_floor = jnp.finfo(rho_filtered_grad_helper.dtype).tiny * 2**20
+    nonzero_norm = jnp.abs(rho_filtered_grad_helper) > norm_floor
 
     rho_filtered_grad_norm = jnp.sqrt(jnp.where(nonzero_norm, rho_filtered_grad_helper, 1))
     rho_filtered_grad_norm_eff = jnp.where(nonzero_norm, rho_filtered_grad_norm, 1)
